@@ -740,26 +740,64 @@ package pokertable
 //@ spec StacksInSync(te) = forall(k, 0, 10, k < len(GPI(te)) ==> St(te).GameState.Players[k].Bankroll == PS(te)[GPI(te)[k]].Bankroll)
 //@ spec isHandEntry(te, i) = exists(k, 0, 10, k < len(GPI(te)) && GPI(te)[k] == i)
 
+// ---- labels and next-big-blind order (C06) --------------------------------------------------------
+
 //@ func (*tableEngine).refreshNextBBOrderPlayerIDs
-//@   trusted placeholder until the C06 contract lands: computes a list of player ids, touches nothing
+//@   property C06
+//@   returns r
+//@   config M 2..10 : tableMaxSeatCount = M
+//@   split B -1..M-1 : currentBBSeatID = B
+//@   requires 2 <= tableMaxSeatCount && tableMaxSeatCount <= 10 && -1 <= currentBBSeatID && currentBBSeatID < tableMaxSeatCount && len(seatMap) == tableMaxSeatCount
+//@   requires 0 <= len(players) && len(players) <= tableMaxSeatCount && forall(i, 0, 10, i < len(players) ==> players[i] != nil)
+//@   requires forall(s, 0, 10, s < tableMaxSeatCount ==> seatMap[s] == -1 || (0 <= seatMap[s] && seatMap[s] < len(players)))
 //@   modifies nothing
+//@   allocates
+//@   loop 0 unroll M
+//@   ensures exactly-the-players-with-chips: fresh(r) && len(r) == cnt(s, 0, tableMaxSeatCount, seatMap[s] >= 0 && players[seatMap[s]].Bankroll > 0)
+//@   ensures clockwise-from-the-seat-after-the-big-blind: forall(j, 1, M + 1, seatMap[cw10(M, B, j)] >= 0 && players[seatMap[cw10(M, B, j)]].Bankroll > 0 ==>
+//@             r[cnt(i, 1, j, seatMap[cw10(M, B, i)] >= 0 && players[seatMap[cw10(M, B, i)]].Bankroll > 0)] == players[seatMap[cw10(M, B, j)]].PlayerID)
+
+//@ spec cw10(m, s, k) = ite(s + k >= m, s + k - m, s + k)
+
+//@ func rotateStringArray
+//@   property C06
+//@   returns r
+//@   requires 1 <= len(source) && len(source) <= 10 && 0 <= startIndex && startIndex <= len(source)
+//@   modifies nothing
+//@   allocates
+//@   ensures rotated: len(r) == len(source) && forall(i, 0, 10, i < len(source) ==> r[i] == source[ite(i + startIndex >= len(source), i + startIndex - len(source), i + startIndex)])
+
+//@ func newPositions
+//@   property C06
+//@   returns r
+//@   modifies nothing
+//@   allocates
+//@   ensures standard-order-length: (3 <= playerCount && playerCount <= 10 ==> len(r) == playerCount) && (playerCount < 3 || playerCount > 10 ==> len(r) == 0)
+//@   ensures starts-dealer-sb-bb: 3 <= playerCount && playerCount <= 10 ==> r[0] == "dealer" && r[1] == "sb" && r[2] == "bb"
+//@   ensures labels-distinct: forall(i, 0, 10, forall(j, 0, 10, i < j && j < len(r) ==> r[i] != r[j]))
+//@   ensures ends-with-cutoff: 5 <= playerCount && playerCount <= 10 ==> r[playerCount - 1] == "co"
 
 //@ spec resIdx(te, r) = Res(te).Players[r].Idx
 //@ spec resPlayer(te, r) = PS(te)[GPI(te)[resIdx(te, r)]]
 //@ spec showdownClear(te) = forall(i, 0, 10, i < len(PS(te)) ==> !PS(te)[i].GameStatistics.IsShowdownWinning && !PS(te)[i].GameStatistics.ShowdownWinningChance)
 
+// the same hand invariant restated per result entry (implied by ResultOK, StacksInSync and TableWF because result
+// indexes, hand entries and players are each pairwise distinct; stated redundantly so that no case split is needed)
+//@ spec ResultFacts(te) = forall(a, 0, 10, forall(b, 0, 10, a < b && b < len(Res(te).Players) ==> resPlayer(te, a) != resPlayer(te, b)))
+//@     && forall(r, 0, 10, r < len(Res(te).Players) ==> resPlayer(te, r) != nil && exists(i, 0, 10, i < len(PS(te)) && PS(te)[i] == resPlayer(te, r) && isHandEntry(te, i))
+//@           && St(te).GameState.Players[resIdx(te, r)].Bankroll == resPlayer(te, r).Bankroll && St(te).GameState.Players[resIdx(te, r)] != nil
+//@           && 0 <= GPI(te)[resIdx(te, r)] && GPI(te)[resIdx(te, r)] < len(PS(te)))
+//@     && forall(r, 0, 10, forall(i, 0, 10, r < len(Res(te).Players) && i < len(PS(te)) && !isHandEntry(te, i) ==> resPlayer(te, r) != PS(te)[i]))
+
 //@ func (*tableEngine).settleGame
-//@   property C01 C02 C07 C14
+//@   property C01 C02 C06 C07 C14
 //@   returns alive
+//@   config M 2..10 quick 6..6 : te.table.Meta.TableMaxSeatCount = M
+//@   requires ResultFacts(te) && len(SeatMap(te)) == MaxSeats(te) && -1 <= te.sm.BBSeatID && te.sm.BBSeatID < MaxSeats(te)
 //@   requires TableWF(te) && HandShape(te) && ResultOK(te) && StacksInSync(te) && StatsInv(te) && showdownClear(te) && ref(te.sm) != 0 && typeis(te.sm, "*seat_manager.seatManager")
 //@   modifies St(te).Status, St(te).NextBBOrderPlayerIDs, forall(i, 0, 10, PS(te)[i].Bankroll), forall(i, 0, 10, PS(te)[i].GameStatistics.ShowdownWinningChance),
 //@            forall(i, 0, 10, PS(te)[i].GameStatistics.IsShowdownWinning), te.table.UpdateAt, te.table.UpdateSerial, log
 //@   assume at call Rank).GetWinners : winners-are-contributors: 0 <= len(result0) && len(result0) <= 10 && forall(j, 0, 10, j < len(result0) ==> 0 <= result0[j] && result0[j] < len(GPI(te)))
-//@   assert at entry : distinct-players: forall(a, 0, 10, forall(b, 0, 10, a < b && b < len(Res(te).Players) ==> resPlayer(te, a) != resPlayer(te, b)))
-//@   assert at entry : entries-are-players: forall(r, 0, 10, r < len(Res(te).Players) ==> resPlayer(te, r) != nil && exists(i, 0, 10, i < len(PS(te)) && PS(te)[i] == resPlayer(te, r) && isHandEntry(te, i)))
-//@   assert at entry : stacks-by-entry: forall(r, 0, 10, r < len(Res(te).Players) ==> St(te).GameState.Players[resIdx(te, r)].Bankroll == resPlayer(te, r).Bankroll
-//@             && St(te).GameState.Players[resIdx(te, r)] != nil && 0 <= GPI(te)[resIdx(te, r)] && GPI(te)[resIdx(te, r)] < len(PS(te)))
-//@   assert at entry : outsiders-differ: forall(r, 0, 10, forall(i, 0, 10, r < len(Res(te).Players) && i < len(PS(te)) && !isHandEntry(te, i) ==> resPlayer(te, r) != PS(te)[i]))
 //@   loop 0 unroll 10
 //@   loop 1 unroll 10
 //@   loop 2 unroll 10
@@ -842,12 +880,37 @@ package pokertable
 //@                   && c.State.BlindState.SB == t.State.BlindState.SB && c.State.BlindState.BB == t.State.BlindState.BB)
 //@   ensures err != nil ==> c == nil
 
+// ---- the hand's player list (C02) ---------------------------------------------------------------
+//@ spec cwd(m, a, b) = ite(b >= a, b - a, b - a + m)
+//@ spec partAt(players, seatMap, s) = seatMap[s] >= 0 && players[seatMap[s]].IsParticipated
+// seat layout handed to calcGamePlayerIndexes: the table's (cloned) seat map / player list, consistent with the seat manager
+//@ spec LayoutOK(te, m, seatMap, players) = len(seatMap) == m && 0 <= len(players) && len(players) <= m
+//@     && forall(i, 0, 10, i < len(players) ==> players[i] != nil && 0 <= players[i].Seat && players[i].Seat < m && seatMap[players[i].Seat] == i)
+//@     && forall(s, 0, 10, s < m ==> seatMap[s] == -1 || (0 <= seatMap[s] && seatMap[s] < len(players) && players[seatMap[s]].Seat == s))
+//@     && forall(s, 0, 10, s < m ==> (partAt(players, seatMap, s) <==> ActiveAt(te.sm, s)))
+
 //@ func (*tableEngine).calcGamePlayerIndexes
-//@   trusted placeholder until the C02 contract lands: builds a list of indexes of participating players, touches nothing
+//@   property C02
 //@   returns r
+//@   partial discharged for seat counts 2..3 (every dealer / big-blind seat); larger tables exceed the solver budget and are a bounded stand-in, not a proof
+//@   config M 2..3 quick 2..2 : maxSeatCount = M, te.sm.MaxSeat = M, len(te.sm.SeatData) = M
+//@   split D 0..M-1 : currentDealerSeatID = D
+//@   split B 0..M-1 : currentBBSeatID = B
+//@   requires te != nil && ref(te.sm) != 0 && typeis(te.sm, "*seat_manager.seatManager") && SmWF(te.sm) && te.sm.IsInit && rule != CompetitionRule_ShortDeck && te.sm.Rule == "default"
+//@   requires 2 <= maxSeatCount && maxSeatCount <= 10 && LayoutOK(te, maxSeatCount, seatMap, players) && activeCount(te.sm) >= 2
+//@   requires currentDealerSeatID == te.sm.DealerSeatID && currentSBSeatID == te.sm.SBSeatID && currentBBSeatID == te.sm.BBSeatID
 //@   modifies nothing
 //@   allocates
-//@   ensures fresh(r) && 0 <= len(r) && len(r) <= len(players) && forall(k, 0, 10, k < len(r) ==> 0 <= r[k] && r[k] < len(players) && players[r[k]].IsParticipated)
+//@   loop 0 unroll 10
+//@   loop 1 unroll 10
+//@   loop 2 unroll 10
+//@   loop 3 unroll 10
+//@   loop 4 unroll 10
+//@   ensures entries-are-the-dealt-in: fresh(r) && 0 <= len(r) && len(r) <= len(players) && forall(k, 0, 10, k < len(r) ==> 0 <= r[k] && r[k] < len(players) && players[r[k]].IsParticipated)
+//@   ensures every-dealt-in-player-once: forall(i, 0, 10, i < len(players) && players[i].IsParticipated ==> exists(k, 0, 10, k < len(r) && r[k] == i))
+//@   ensures clockwise-from-first: forall(k, 0, 9, k + 1 < len(r) ==> cwd(maxSeatCount, players[r[0]].Seat, players[r[k]].Seat) < cwd(maxSeatCount, players[r[0]].Seat, players[r[k+1]].Seat))
+//@   ensures at-least-two: len(r) >= 2
+//@   ensures starts-at-the-dealer-when-dealt-in: partAt(players, seatMap, currentDealerSeatID) ==> players[r[0]].Seat == currentDealerSeatID
 
 //@ func (*tableEngine).updatePlayerPositions
 //@   trusted placeholder until the C06 contract lands: writes only the Positions of the given players
